@@ -5,7 +5,11 @@ import (
 	stdjson "encoding/json"
 	"fmt"
 	"io"
+	"reflect"
+	"strconv"
 	"strings"
+	"sync"
+	"unicode"
 	"unicode/utf8"
 
 	gojson "github.com/goccy/go-json"
@@ -321,11 +325,59 @@ var strPositions = []strPos{
 		ge, se := decBoth(L, st, &g, &s)
 		return g.Text, ge, s.Text, se
 	}},
+	{"struct-key", func(L string, st int) (string, error, string, error) {
+		// L spells the name of a struct member (when its content can be a tag name); siblings
+		// share a prefix with it, so the key lookup has to decode the escapes to tell them apart
+		var name string
+		if stdjson.Unmarshal([]byte(L), &name) != nil || !validTagName(name) {
+			return "", nil, "", nil
+		}
+		t := structKeyType(name)
+		g, s := reflect.New(t), reflect.New(t)
+		ge, se := decBoth(`{"A":1,`+L+`:7,"B":2}`, st, g.Interface(), s.Interface())
+		return fmt.Sprint(g.Elem().Interface()), ge, fmt.Sprint(s.Elem().Interface()), se
+	}},
 	{"text-key", func(L string, st int) (string, error, string, error) {
 		g, s := map[zoo.UTS]int{}, map[zoo.UTS]int{}
 		ge, se := decBoth("{"+L+":1}", st, &g, &s)
 		return fmt.Sprint(g), ge, fmt.Sprint(s), se
 	}},
+}
+
+func validTagName(n string) bool {
+	if n == "" || n == "-" || len(n) > 40 {
+		return false
+	}
+	for _, c := range n {
+		switch {
+		case strings.ContainsRune("!#$%&()*+-./:;<=>?@[]^_{|}~ ", c):
+		case c == utf8.RuneError:
+			return false
+		case !unicode.IsLetter(c) && !unicode.IsDigit(c):
+			return false
+		}
+	}
+	return true
+}
+
+var structKeyTypes sync.Map
+
+func structKeyType(name string) reflect.Type {
+	if t, ok := structKeyTypes.Load(name); ok {
+		return t.(reflect.Type)
+	}
+	tag := func(n string) reflect.StructTag { return reflect.StructTag(`json:` + strconv.Quote(n)) }
+	r0, _ := utf8.DecodeRuneInString(name)
+	fs := []reflect.StructField{
+		{Name: "A", Type: reflect.TypeOf(0)},
+		{Name: "P", Type: reflect.TypeOf(0), Tag: tag(string(r0) + "~")},
+		{Name: "F", Type: reflect.TypeOf(0), Tag: tag(name)},
+		{Name: "X", Type: reflect.TypeOf(0), Tag: tag(name + "x")},
+		{Name: "B", Type: reflect.TypeOf(0)},
+	}
+	t := reflect.StructOf(fs)
+	structKeyTypes.Store(name, t)
+	return t
 }
 
 func litUnitClass(L string) string {
@@ -384,6 +436,9 @@ func c17DecodeLit(c *rt.Ctx, sub int, L string, streams []int) {
 				c.Obs("panics_seen_judged_by_C06", 1)
 				_ = msg
 				continue
+			}
+			if p.name == "struct-key" && sv != "" {
+				c.Obs("struct_key_decodes", 1)
 			}
 			ctx := p.name + ":" + mode + ":" + litUnitClass(L)
 			switch {
